@@ -56,6 +56,10 @@ func numTok(v interface{}) (string, bool) {
 		return fmt.Sprintf("#i32:%v", n), true
 	case uint64:
 		return fmt.Sprintf("#u64:%v", n), true
+	case uint:
+		return fmt.Sprintf("#u:%v", n), true
+	case int8:
+		return fmt.Sprintf("#i8:%v", n), true
 	case json.Number:
 		return "#jn:" + string(n), true
 	}
@@ -72,7 +76,7 @@ func enc(v interface{}) string {
 
 // encTo: depth guards against cyclic values (an aliasing defect can make a Map contain itself).
 func encTo(sb *strings.Builder, v interface{}, depth int, onPath map[uintptr]bool) {
-	if depth > 300 {
+	if depth > 50000 {
 		sb.WriteString("?cyclic-or-too-deep")
 		return
 	}
@@ -245,6 +249,18 @@ func decNum(t string) (interface{}, error) {
 		return n, err
 	case "jn":
 		return json.Number(txt), nil
+	case "i32":
+		n, err := strconv.ParseInt(txt, 10, 32)
+		return int32(n), err
+	case "f32":
+		f, err := strconv.ParseFloat(txt, 32)
+		return float32(f), err
+	case "u":
+		n, err := strconv.ParseUint(txt, 10, 64)
+		return uint(n), err
+	case "i8":
+		n, err := strconv.ParseInt(txt, 10, 8)
+		return int8(n), err
 	}
 	return nil, fmt.Errorf("bad number tag %q", tag)
 }
